@@ -7,6 +7,8 @@ import Evenio.Proofs.Inv.Registry
 import Evenio.Proofs.Inv.Store
 import Evenio.Proofs.Inv.Lists
 import Evenio.Proofs.Inv.Exec
+import Evenio.Proofs.Inv.StoreAll
+import Evenio.Proofs.Inv.Cache
 /-! Everything about the logical world invariant in one environment: definitions (`WInv.lean`), the calculus, the
     obligations, the group independent glue, the seeds of the group files and the bridge to the executable invariant.
     `lake build Evenio.Proofs.Inv.All`.  Plan: `Evenio/Proofs/WInvPlan.md`. -/
